@@ -1,3 +1,4 @@
+import logging
 from functools import partial, wraps
 
 from .constants import ValidLogLevels
@@ -102,12 +103,14 @@ def _manage_log_level_via_verbosity(method_with_verbose_kwarg, calls=[0]):
     and have a 'verbose' keyword argument set to None by default.
 
     Note that the 'calls' keyword argument is to automatically track
-    the number of decorated functions that are being (or about to be)
-    executed, with the purpose of preventing resetting of the
-    effective log level at the completion of decorated functions that
-    are called inside other decorated functions (see comments in
-    'finally' statement for further explanation).  Note (when it is of
-    concern) that this approach may not be thread-safe.
+    the number of decorated functions that are being executed, with
+    the purpose of preventing resetting of the effective log level to
+    the global one at the completion of decorated functions that are
+    called inside other decorated functions: such a function instead
+    puts back the logging state that it found when it started, i.e.
+    the one of the function that called it (see comments in 'finally'
+    statement for further explanation).  Note (when it is of concern)
+    that this approach may not be thread-safe.
 
     """
     # Note that 'self' can be included in '*args' for any function calls
@@ -116,10 +119,6 @@ def _manage_log_level_via_verbosity(method_with_verbose_kwarg, calls=[0]):
 
     @wraps(method_with_verbose_kwarg)
     def verbose_override_wrapper(*args, **kwargs):
-        # Increment indicates that one decorated function has started
-        # execution
-        calls[0] += 1
-
         # Deliberately error if verbose kwarg not set, if not by user
         # then as a default to the decorated function, as this is
         # crucial to usage.
@@ -151,13 +150,28 @@ def _manage_log_level_via_verbosity(method_with_verbose_kwarg, calls=[0]):
         elif verbose is False:
             verbose = 0  # corresponds to disabling logs i.e. no verbosity
 
+        # Validate before anything is changed or counted, so that an
+        # invalid value leaves no trace
+        if verbose is not None:  # None as default, note exclude True & False
+            if not _is_valid_log_level_int(verbose):
+                raise ValueError(invalid_arg_msg)
+
+        # Increment indicates that one decorated function has started
+        # execution
+        calls[0] += 1
+
+        # The logging state found on entry, to be put back at the end
+        # if this function has been called inside another decorated
+        # function
+        root_logger = logging.getLogger()
+        previous_level = root_logger.level
+        previous_disable = root_logger.manager.disable
+        previous_log_level = log_level().value
+
         # Override log levels for the function & all it calls (to
         # reset at end)
-        if verbose is not None:  # None as default, note exclude True & False
-            if _is_valid_log_level_int(verbose):
-                _reset_log_emergence_level(verbose)
-            else:
-                raise ValueError(invalid_arg_msg)
+        if verbose is not None:
+            _reset_log_emergence_level(verbose)
 
         # First need to (temporarily) re-enable global logging if
         # disabled in the cases where you do not want to disable it
@@ -188,6 +202,18 @@ def _manage_log_level_via_verbosity(method_with_verbose_kwarg, calls=[0]):
                     _reset_log_emergence_level(log_level())
                 if log_level() == "DISABLE" and verbose != 0:
                     _disable_logging()  # disable again after re-enabling
+            elif verbose is not None:
+                # An inner function has completed: put back exactly
+                # the logging state that it found, so that any
+                # subsequent code in the outer function keeps the
+                # outer function's verbosity, and the outermost
+                # function can reset to the global level
+                root_logger.setLevel(previous_level)
+                logging.disable(previous_disable)
+                if log_level().value != previous_log_level:
+                    # The global log level was itself changed during
+                    # the call, which is meant to last: follow it
+                    _reset_log_emergence_level(log_level())
 
     return verbose_override_wrapper
 
